@@ -798,3 +798,86 @@ theorem applyAll_aliasDels (oa : List (Str × Option Str)) (e : Env) :
   | cons p r ih => simp only [List.map_cons, applyAll_cons, Cmd.apply]; exact ih
 
 end EupsModel.ShellEmit
+
+namespace EupsModel.ShellEmit
+
+/-! ### `unsetup eups`: any options without `-n` -/
+
+/-- `emitVars_apply` for any options without `-n`: when the product is eups itself no variable is protected -/
+theorem emitVarsOn_apply (o : Opts) (hna : o.noaction = false) (old : OldEnv) (base new : Env) (ht : Tracks old base)
+    (hnd : (new.map (·.1)).Nodup)
+    (hprot : o.isEups = true ∨ ∀ k, isProtected k = true → base.has k = true → new.has k = true) :
+    SameEnv (applyAll (emitVarsOn o old new) base) new := by
+  intro k
+  have hhid : ∀ x, hidden o x = false := fun x => by simp [hidden, hna]
+  simp only [emitVarsOn, applyAll_append]
+  rw [unsets_spec, exports_spec o hna old new hnd base (fun p _ hl => ht.2 p.1 p.2 hl) k]
+  cases hn : new.get k with
+  | some v =>
+    have : old.any (fun p => p.1 == k && (unsetCmd? o new p).isSome) = false := by
+      apply List.any_eq_false.mpr
+      intro p _
+      by_cases hk : p.1 = k
+      · subst hk
+        simp [unsetCmd?, Env.has, hn]
+      · simp [hk]
+    simp [this]
+  | none =>
+    simp only
+    split
+    · rfl
+    · rename_i hany
+      cases hb : base.get k with
+      | none => rfl
+      | some vb =>
+        exfalso
+        apply hany
+        have hmem : k ∈ old.map (·.1) := by
+          rw [ht.1]; exact get_isSome_mem_keys base k (by simp [hb])
+        obtain ⟨p, hp, hpk⟩ := List.mem_map.mp hmem
+        apply List.any_eq_true.mpr
+        refine ⟨p, hp, ?_⟩
+        have hnh : new.has k = false := by simp [Env.has, hn]
+        have hpr : (!o.isEups && isProtected k) = false := by
+          rcases hprot with h | h
+          · simp [h]
+          · cases hx : isProtected k with
+            | false => simp
+            | true => rw [h k hx (by simp [Env.has, hb])] at hnh; cases hnh
+        simp [unsetCmd?, hpk, hnh, hpr, hhid]
+
+theorem emitVarsOn_good (o : Opts) (old : OldEnv) (base new : Env) (ht : Tracks old base)
+    (hidb : ∀ p ∈ base, isIdent p.1 = true) (hidn : ∀ p ∈ new, isIdent p.1 = true)
+    (halpha : ∀ p ∈ new, old.lookup p.1 ≠ some (some p.2) → InAlphabet p.2) :
+    ∀ c ∈ emitVarsOn o old new, c.Good := by
+  intro c hc
+  simp only [emitVarsOn, List.mem_append, List.mem_filterMap] at hc
+  rcases hc with ⟨p, hp, hpc⟩ | ⟨p, hp, hpc⟩
+  · simp only [setCmd?] at hpc
+    split at hpc; · cases hpc
+    rename_i hl
+    split at hpc; · cases hpc
+    cases hpc
+    exact ⟨hidn p hp, halpha p hp (by simpa using hl)⟩
+  · simp only [unsetCmd?] at hpc
+    split at hpc; · cases hpc
+    split at hpc; · cases hpc
+    split at hpc; · cases hpc
+    cases hpc
+    have : p.1 ∈ base.map (·.1) := by rw [← ht.1]; exact List.mem_map.mpr ⟨p, hp, rfl⟩
+    obtain ⟨q, hq, hqk⟩ := List.mem_map.mp this
+    show isIdent p.1 = true
+    rw [← hqk]; exact hidb q hq
+
+/-- the options of `unsetup eups` -/
+def unsetupEups : Opts := { isEups := true, fwd := false }
+
+theorem render_unsetupEups (c : Cmd) : render unsetupEups c = some c.text := by
+  cases c <;> simp [render, echoWrap, Cmd.text, unsetupEups]
+
+theorem mapM_render_unsetupEups (l : List Cmd) : l.mapM (render unsetupEups) = some (l.map Cmd.text) := by
+  induction l with
+  | nil => rfl
+  | cons c r ih => simp [List.mapM_cons, render_unsetupEups, ih]
+
+end EupsModel.ShellEmit
